@@ -94,13 +94,13 @@ Proof. exact backoff_final. Qed.
 Print Assumptions C15_rejoin_after_backoff.
 
 (* ---- leave on close.  "The current member id" is the memberID variable of
-   ConsumerGroup.run: it is set from every successful JoinGroup response, kept across generations
-   and across RebalanceInProgress results, cleared after the leave attempt that follows any other
-   error, and ALSO cleared (without LeaveGroup) when a JoinGroup request fails, because joinGroup
-   returns "" on error.  [HRunExit x (Some m)] = run returns while that variable holds m.
-   Whenever run exits holding m, a LeaveGroup for m was attempted (request sent: HLeaveReq, or the
-   coordinator could not be reached for it: HLeaveUnreach) since the last JoinGroup request;
-   and Close returns only after run exited. ---- *)
+   ConsumerGroup.run: it is set from every successful JoinGroup response, kept across generations,
+   across RebalanceInProgress results and across a failed JoinGroup request (joinGroup returns
+   the id it was given), and cleared only right after a leave attempt for it
+   (C15_member_id_cleared_only_after_leave).  [HRunExit x (Some m)] = run returns while that
+   variable holds m.  Whenever run exits holding m, a LeaveGroup for m was attempted (request
+   sent: HLeaveReq, or the coordinator could not be reached for it: HLeaveUnreach) since the
+   last JoinGroup request; and Close returns only after run exited. ---- *)
 Theorem C15_leave_on_close : forall w ls s, run (init w) ls = Some s ->
   (forall post x m pre, hist s = post ++ HRunExit x (Some m) :: pre ->
      exists pre1 e pre2, pre = pre1 ++ e :: pre2 /\ ev_is_leave m e = true /\ forall m', ~ In (HJoinReq m') pre1)
@@ -123,6 +123,24 @@ Theorem C15_member_id_held_at_exit_only_on : forall w ls s, run (init w) ls = So
   forall x m, In (HRunExit x (Some m)) (hist s) -> x = XOffer ERebalance \/ x = XClosed.
 Proof. exact leave_only_gap. Qed.
 Print Assumptions C15_member_id_held_at_exit_only_on.
+
+(* run's member id variable goes from holding m to empty only in a step that has just recorded
+   a leave attempt for m (before the fix of joinGroup a failed JoinGroup request cleared it
+   silently); with C15_leave_on_close: a member id obtained from the coordinator is never
+   abandoned without a LeaveGroup attempt, whether at Close or before a back-off *)
+Theorem C15_member_id_cleared_only_after_leave : forall s l s' m,
+  step s l = Some s' -> mid s = Some m -> mid s' = None -> left_since_join m (hist s') = true.
+Proof. exact id_cleared_only_after_leave. Qed.
+Print Assumptions C15_member_id_cleared_only_after_leave.
+
+(* regression of the JoinGroup-error witness: generation 0 of member 1 ends (heartbeat answered
+   RebalanceInProgress), the re-join with id 1 is lost: LeaveGroup for 1 follows that JoinGroup
+   request, before Close returns *)
+Theorem C15_joinerr_scenario_leaves : exists s, run (init 0) joinerr_scenario = Some s /\
+  mon_leave_full (hist s) = true /\ In (HCloseRet 0) (hist s) /\
+  (exists post pre, hist s = post ++ HLeaveReq 1 :: pre /\ In (HJoinReq (Some 1)) pre).
+Proof. exact joinerr_scenario_leaves. Qed.
+Print Assumptions C15_joinerr_scenario_leaves.
 
 (* regression of the former F5 witness: join as member 1, SyncGroup answers RebalanceInProgress,
    nobody calls Next, Close: LeaveGroup for member 1 is sent before Close returns *)
@@ -152,7 +170,7 @@ Definition C15_example_run : list label :=
    LNextCall 0; LNextGen 0; LStart 0; LStart 0; LHbTick 0 AOk; LWatchInit 1 AOk;
    LFnReturn 2; LFnHandler 2; LWaitGenDone; LGenCloseLock; LStart 0; LFnSeeDone 0; LFnSeeDone 1;
    LFnHandler 1; LFnReturn 3; LFnHandler 0; LFnHandler 3; LGenCloseJoined;
-   LCoord AOk; LJoin (JErr EKafka); LNextCall 1; LNextErr 1; LBackoffFire;
+   LCoord AOk; LJoin (JErr EKafka); LLeaveCoord AOk; LLeaveReq AOk; LNextCall 1; LNextErr 1; LBackoffFire;
    LCoord AOk; LJoin (JOk 2 NotLeader); LSync AOk; LFetch AOk; LStartHB; LStartWatch;
    LNextCall 2; LNextGen 2; LHbTick 5 (AErr ERebalance); LFnHandler 5;
    LWatchInit 6 (AErr EDropped); LFnHandler 6; LWaitGenDone; LGenCloseLock;
